@@ -8,6 +8,7 @@ which action must fail first (so a skipped action is noticed too)."""
 import json
 
 from .. import core, gen, pipeline
+from ..gmodel import desugar as gmodel_desugar
 from ..subject import CONFIGS
 
 ALL_TAGS = [c[0] for c in CONFIGS]
@@ -115,6 +116,39 @@ def run(tier, seed):
                     for tag in irng.sample(tags, min(3, len(tags))):
                         execs.append(pipeline.Exec(c, s, w, gap, tag, shape=shape, err_at=j, fails=f))
     res = pipeline.run_execs(subj, execs)
+    # second workload: grammars WITH error recovery ("error recovery does not intercept it"):
+    # corrupted inputs, a stream error injected at every position (also while recovery is
+    # dropping tokens)
+    from .. import gen2
+    rrng = chk.rng("recovery")
+    nrec = {"quick": 24, "thorough": 200}[tier]
+    subj2, rcases = pipeline.make_cases(chk, rrng, nrec, gen2.gen_recovery, ["td_lane", "td_lalr"], subject_name="subject_rec")
+    execs2 = []
+    for c in rcases:
+        c.cfg_noerr = gmodel_desugar(gen2.strip_errors(c.g))
+        alphabet = list(c.g.terms)
+        for s in c.g.starts():
+            sents = [w for w in (gen.random_sentence(irng, c.cfg_noerr, s, depth=irng.randint(2, 8), max_len=20) for _ in range(12)) if w is not None]
+            ins = []
+            for _ in range({"quick": 30, "thorough": 120}[tier]):
+                base = irng.choice(sents) if sents else [irng.choice(alphabet) for _ in range(5)]
+                ins.append(gen.mutate(irng, base, alphabet + ["?"], nmut=irng.choice([1, 2, 2, 3, 4])))
+            for w in ins:
+                gap = irng.choice([0, 5])
+                for j in range(len(w) + 1):
+                    tag = irng.choice(list(c.mods)) if c.mods else None
+                    if tag:
+                        execs2.append(pipeline.Exec(c, s, w, gap, tag, shape="R", err_at=j))
+    res2 = pipeline.run_execs(subj2, execs2)
+    for e in execs2:
+        chk.evaluations += 1
+        rec = res2.get(e.idx)
+        monitor(chk, {"C17"}, e.case, e, rec, None)
+        if rec and rec.get("r") and "ok" not in rec["r"] and rec["r"].get("err") == "User":
+            evs = pipeline.parse_events(rec["ev"])
+            if any(k == "e" for k, _ in evs):
+                chk.count("recovery_grammar_stream_error_surfaced")
+    chk.extra["recovery_grammars"] = len(rcases)
     orcs = {}
     for e in execs:
         key = (e.case.idx, e.start, tuple(e.toks), e.gap, str(e.fails))
